@@ -40,8 +40,10 @@ struct SpecSpace {
     uint64_t randomCount;
     unsigned randMinN, randMaxN;
     std::vector<uint64_t> prefix; // prefix[k] = number of exhaustive graphs with n < k
-    SpecSpace(bool directed, unsigned maxExhaustiveN, uint64_t randomCount, unsigned randMinN, unsigned randMaxN)
-        : directed(directed), maxExhaustiveN(maxExhaustiveN), randomCount(randomCount), randMinN(randMinN), randMaxN(randMaxN) {
+    bool padIsolated = false;
+    unsigned bigEvery = 0, bigMaxN = 90; // every bigEvery-th random graph is a "big" one: 25..bigMaxN vertices, a hub, up to hundreds of edges
+    SpecSpace(bool directed, unsigned maxExhaustiveN, uint64_t randomCount, unsigned randMinN, unsigned randMaxN, unsigned bigEvery = 0, unsigned bigMaxN = 90)
+        : directed(directed), maxExhaustiveN(maxExhaustiveN), randomCount(randomCount), randMinN(randMinN), randMaxN(randMaxN), bigEvery(bigEvery), bigMaxN(bigMaxN) {
         prefix.push_back(0);
         for (unsigned n = 0; n <= maxExhaustiveN; ++n) prefix.push_back(prefix.back() + (1ULL << slots(directed, n).size()));
     }
@@ -62,6 +64,43 @@ struct SpecSpace {
             return g;
         }
         Rng r = caseRng(seed, directed ? 0x5a : 0x5b, i);
+        if (bigEvery && (i - exhaustiveCount()) % bigEvery == bigEvery - 1) {
+            // scale: 25..bigMaxN vertices; one or two hubs joined to most vertices (long neighbour lists, wide BFS levels);
+            // the rest sparse, or - on up to 45 vertices - anything up to the complete graph
+            unsigned n = 25 + r.u(bigMaxN - 24);
+            g.n = n + r.u(3);
+            std::set<Edge> seen;
+            auto add = [&](VertexIndex a, VertexIndex b) {
+                Edge e = canon(directed, a, b);
+                if (seen.insert(e).second) g.edges.push_back(e);
+            };
+            unsigned hubs = 1 + r.u(2);
+            for (unsigned h = 0; h < hubs; ++h) {
+                VertexIndex hub = r.u(n);
+                unsigned reach = n / 2 + r.u(n / 2 + 1);
+                for (unsigned t = 0; t < reach; ++t) {
+                    VertexIndex v = r.u(n);
+                    if (directed && r.chance(1, 4)) add(v, hub);
+                    else add(hub, v);
+                }
+            }
+            double density = n <= 45 && r.chance(1, 3) ? r.unit() : 0.02 + 0.05 * r.unit();
+            unsigned target = (unsigned)(density * n * n);
+            for (unsigned t = 0; t < target; ++t) {
+                VertexIndex a = r.u(n), b = r.chance(1, 20) ? a : r.u(n);
+                add(a, b);
+            }
+            if (padIsolated) {
+                // long runs of isolated vertices before and / or after everything that has an edge
+                unsigned before = r.chance(1, 3) ? 64 + r.u(50) : 0, after = r.chance(1, 3) ? 64 + r.u(50) : 0;
+                for (auto &e : g.edges) {
+                    e.first += before;
+                    e.second += before;
+                }
+                g.n += before + after;
+            }
+            return g;
+        }
         unsigned n = randMinN + r.u(randMaxN - randMinN + 1);
         g.n = n;
         // isolated prefix / suffix: edges only among vertices lo..hi-1
